@@ -156,7 +156,19 @@ func C15(c *core.Ctx) {
 			if a1 == a2 {
 				continue
 			}
-			fmt.Fprintf(&tr, "2020-02-%02d \"%s %s\"\n%s %s %d CHF\n\n", 1+k%28, words[rng.Intn(len(words))], words[rng.Intn(len(words))], a2, a1, 5+rng.Intn(3))
+			fmt.Fprintf(&tr, "2020-02-%02d \"%s %s\"\n%s %s %d CHF\n", 1+k%28, words[rng.Intn(len(words))], words[rng.Intn(len(words))], a2, a1, 5+rng.Intn(3))
+			// transactions with several bookings: a booking on the placeholder (or a second real one) before a real one
+			for extra := rng.Intn(3); extra > 0 && rng.Intn(2) == 0; extra-- {
+				b1, b2 := accts[rng.Intn(len(accts))], accts[rng.Intn(len(accts))]
+				if b1 != b2 {
+					fmt.Fprintf(&tr, "%s %s %d CHF\n", b1, b2, 1+rng.Intn(9))
+				}
+			}
+			tr.WriteString("\n")
+		}
+		if ntr > 0 && rng.Intn(4) == 0 {
+			// an account that occurs only after a placeholder booking of its transaction
+			fmt.Fprintf(&tr, "2020-02-27 \"%s only here\"\nAssets:Bank %s 3 CHF\nAssets:Bank Expenses:OnlyHere 4 CHF\n\n", words[rng.Intn(len(words))], P)
 		}
 		var tg strings.Builder
 		tg.WriteString("# target file\n\n2020-01-01 open Assets:Bank\n\n")
